@@ -293,6 +293,8 @@ def compute_unwindset(job, goto):
 # (regex on "function :: source text around the loop", bound or callable(job))
 DEFAULT_LOOP_RULES = [
     (r"signal < 32", 33),
+    (r"sg < 32", 33),  # harness loops over the standard signals
+    (r"sizeof\(reproc_t\)", 200),  # byte-wise comparison of a handle
     (r"sigaction\(", 66),  # any other loop over signal numbers (NSIG is 65 on Linux)
     (r"errno == EINTR", lambda j: j.params.get("retry", 3)),
     (r"max_fd", lambda j: j.params.get("nfd", 18) + 2),
@@ -485,10 +487,16 @@ def static_storage_check(prop, job, workdir):
     """Structural obligation decided from the goto symbol table (front end of the same tool
     chain): every object of static storage duration defined in the repository's POSIX
     sources must be const or thread-local. Returns obligations and violations."""
-    src = os.path.join(workdir, "sym.c")
-    open(src, "w").write('#include "reproc_all.h"\n#include "vp_nocb.h"\nvoid harness(void) {}\n')
     goto = os.path.join(workdir, "sym.goto")
-    fl = list(BASE_CFLAGS) + ["-DVP_CBMC", "-DVP_ON_%s=1" % prop, "-include", os.path.join(VERIF, "model", "vp_shim.h")]
+    if job.variant.startswith("windows"):
+        # the Windows leaf unit, compiled as in H_win
+        src = os.path.join(VERIF, "harness", "h_win.c")
+        fl = list(BASE_CFLAGS) + ["-DVP_CBMC", "-DVP_ON_%s=1" % prop, "-D_WIN32=1", "-D_WIN64=1", "-DVP_WUNIT=3",
+                                  "-I" + os.path.join(VERIF, "model", "win")]
+    else:
+        src = os.path.join(workdir, "sym.c")
+        open(src, "w").write('#include "reproc_all.h"\n#include "vp_nocb.h"\nvoid harness(void) {}\n')
+        fl = list(BASE_CFLAGS) + ["-DVP_CBMC", "-DVP_ON_%s=1" % prop, "-include", os.path.join(VERIF, "model", "vp_shim.h")]
     rc, so, se, _ = sh(["goto-cc", "-c", src, "-o", goto] + fl, timeout=300)
     if rc != 0:
         raise Inconclusive("goto-cc failed for the symbol-table unit:\n" + se[-2000:])
@@ -599,8 +607,11 @@ def run_job(prop, job, run_dir, want_functions=True):
                 continue
             if kind == "nobody":
                 if st == "FAILURE":
-                    info["notes"].append("callee without body: " + d)
-                    info["status"] = "inconclusive"
+                    # a call the model does not know (e.g. newly introduced by a change): CBMC gives it an
+                    # arbitrary return value and no effects. Violations found that way are still replayed and
+                    # reported; without a violation the run cannot claim that the property held.
+                    info["notes"].append("callee without body (arbitrary return value, no effects): " + d)
+                    info["unmodelled"] = True
                 continue
             ob = {"property": r.get("property"), "description": d, "kind": kind,
                   "status": st}
@@ -617,6 +628,8 @@ def run_job(prop, job, run_dir, want_functions=True):
             elif st != "SUCCESS":
                 info["status"] = "inconclusive"
                 info["notes"].append("status %s for %s" % (st, d))
+        if info.get("unmodelled") and not failed_real:
+            info["status"] = "inconclusive"
         unreached = [c["goal"] for c in info["covers"] if not c["reached"]]
         if unreached:
             info["status"] = "inconclusive"
